@@ -485,8 +485,13 @@ def pipeline(ctx, quick):
         # ------------------------------------------------ data: a generated three-chromosome world with four read sets, and the bundled chr9 data with a subset
         wd = os.path.join(root, "w"); w = gen_data.World(11 if quick else 11 + 100 * ctx.seed, n_chr=3, genes_per_chr=(3, 5)); w.reads_from_annotation(per_isoform=5); w.novel_reads()
         reads = w.reads; w.reads = []; w.write(wd, n_bams=0); index_fasta(os.path.join(wd, "genome.fa"))
-        wf = {k: os.path.join(wd, k + ".bam") for k in ("H", "L", "U", "H2", "R1", "R2")}
+        wf = {k: os.path.join(wd, k + ".bam") for k in ("H", "L", "U", "H2", "R1", "R2", "V")}
         write_bam(w, reads, wf["H"]); write_bam(w, [strip_polya(r) for r in reads], wf["L"]); write_bam(w, reads[::2], wf["U"], unmapped=7); write_bam(w, reads, wf["H2"])
+        # V = the reads U does not have; one read -> group table covers the reads of both (reads without an RG tag are not listed: group NA)
+        write_bam(w, reads[1::2], wf["V"]); wtable = os.path.join(wd, "groups.tsv")
+        with open(wtable, "w") as f:
+            for r in reads:
+                if r["tags"].get("RG"): f.write("%s\t%s\n" % (r["name"], r["tags"]["RG"]))
         # technical replicas: the reads of H in two files; the unannotated exon-skipping reads of every second gene all in the first file (the replica filter suppresses that novel
         # transcript), those of the other genes alternate between the files
         ngenes = sorted(set(r["name"].split("_")[1] + "_" + r["name"].split("_")[2] for r in reads if r["name"].startswith("novel_")))
@@ -503,21 +508,30 @@ def pipeline(ctx, quick):
         bsub = os.path.join(bd, "half.bam"); rewrite_bam(b["bam"], [bsub], lambda a, i: (0 if i % 2 == 0 else None, a))
         bcommon = ["--reference", b["fasta"], "--genedb", b["gtf"], "--complete_genedb", "--data_type", "nanopore"]
         bref, _ = P.read_gtf(b["gtf"]); bchroms = ["chr9"]
-        EXP = {"EH": ([wf["H"]], None), "EL": ([wf["L"]], None), "EU": ([wf["U"]], None), "EI": ([wf["H2"]], None), "ER": ([wf["H"], wf["L"]], ["repA", "repB"]), "ET": ([wf["R1"], wf["R2"]], None),
+        EXP = {"EH": ([wf["H"]], None), "EL": ([wf["L"]], None), "EU": ([wf["U"]], None), "EI": ([wf["H2"]], None), "ER": ([wf["H"], wf["L"]], ["repA", "repB"]), "ET": ([wf["R1"], wf["R2"]], None), "EV": ([wf["V"]], None),
                "EB": ([b["bam"]], None), "EC": ([bsub], None)}
         OPT = {"sens": ["--model_construction_strategy", "sensitive_ont"], "dflt": [], "rich": ["--count_exons", "--read_group", "tag:RG", "--sqanti_output", "--check_canonical"],
                "brich": ["--count_exons", "--sqanti_output", "--check_canonical", "--read_group", "file:%s:0:1" % b["groups"]],
-               "fname": ["--read_group", "file_name"]}
-        DEFAULTS = {"sens": (False, False), "dflt": (True, True), "rich": (True, True), "brich": (True, True), "fname": (True, True)}
+               "fname": ["--read_group", "file_name"], "ftab": ["--read_group", "file:%s:0:1" % wtable, "--count_exons"],
+               "ridg": ["--read_group", "read_id:_", "--count_exons"]}
+        DEFAULTS = {"sens": (False, False), "dflt": (True, True), "rich": (True, True), "brich": (True, True), "fname": (True, True), "ftab": (True, True), "ridg": (True, True)}
         plan = [(["EH", "EL"], "list", "sens"), (["EL", "EH"], "yaml", "sens"), (["EU", "EH", "EL"], "list", "dflt"), (["EH", "EU"], "yaml", "rich"), (["EH", "EI"], "list", "dflt"),
                 (["EB", "EC"], "list", "brich"), (["EC", "EB"], "yaml", "brich"),
                 # a one-file experiment before / after an experiment with technical replicas, reads grouped by file name (args.use_technical_replicas is derived per experiment)
-                (["EU", "ET"], "list", "fname"), (["ET", "EU"], "yaml", "fname")]
+                (["EU", "ET"], "list", "fname"), (["ET", "EU"], "yaml", "fname"),
+                # two experiments with DIFFERENT reads grouped through ONE read -> group table (a per-process cache of table parts must be keyed by the experiment)
+                (["EU", "EV"], "list", "ftab"), (["EV", "EU"], "yaml", "ftab")]
         if not quick: plan += [(["EL", "EU", "EH"], "yaml", "sens"), (["EI", "EH", "EU"], "list", "rich"), (["EC", "EB", "EC2"], "list", "dflt")]
         EXP["EC2"] = ([bsub], None)
         intense = bool(getattr(ctx, "new_sites", {}).get("state"))
         threads_set = (1, 2, 3) if intense else (1, 3)
         if intense:
+            # option sets that exercise the files in which the unreviewed state sites are, on the two experiments with disjoint reads
+            FILE_OPTS = {"src/read_groups.py": ["rich", "ridg", "fname"], "src/assignment_io.py": ["rich"], "src/long_read_counter.py": ["rich", "ridg"],
+                         "src/graph_based_model_construction.py": ["sens"], "src/intron_graph.py": ["sens"], "isoquant.py": ["sens", "rich"]}
+            for f in sorted(set(e["file"] for e in ctx.new_sites.get("state", []))):
+                for o in FILE_OPTS.get(f, ["sens", "rich"]):
+                    if not any(s2 == ["EU", "EV"] and o2 == o for s2, _, o2 in plan): plan.append((["EU", "EV"], "list", o))
             # an unreviewed piece of process-wide state: every sequence also in the opposite order, one more thread count
             plan += [(seq[::-1], fmt, opt) for seq, fmt, opt in list(plan) if not any(s2 == seq[::-1] and o2 == opt for s2, _, o2 in plan)]
             ctx.notes.append("whole runs intensified because of unreviewed state sites: every sequence in both orders, threads 1 / 2 / 3")
@@ -566,7 +580,7 @@ def pipeline(ctx, quick):
         ctx.cov["pipeline_runs"] += len(jobs)
 
         def rep(j, **kw):
-            r = {"run": j["kind"], "threads": j["threads"], "options": OPT[j["opt"]] if j["opt"] in OPT else j["opt"], "arguments": [a.replace(root, "<scratch>") for a in j["args"]]}
+            r = {"run": j["kind"], "threads": j["threads"], "options": [a.replace(root, "<scratch>") for a in OPT[j["opt"]]] if j["opt"] in OPT else j["opt"], "arguments": [a.replace(root, "<scratch>") for a in j["args"]]}
             if j["kind"] == "multi": r["experiments"] = j["seq"]; r["description file"] = open(j["desc"]).read().replace(root, "<scratch>")
             if intense: r["unreviewed state sites found by the static scan"] = [e["site"] for e in ctx.new_sites.get("state", [])]
             if j.get("seed"): r["seeded class-level state"] = {k: (v if not isinstance(v, list) else v[:6] + ["... %d ids" % len(v)]) for k, v in j["seed"].items()}
@@ -688,7 +702,7 @@ def pipeline(ctx, quick):
         ctx.rule("whole runs: a generated three-chromosome data set (gen_data.World; read sets H = all reads with polyA tails, L = the same reads without tails, U = every second read + 7 "
                  "unaligned records, a copy of H, a two-file experiment) and the bundled chr9 data (all reads / every second read); sequences of 2-3 experiments in ONE invocation "
                  "(list file and YAML; same and different data; both orders) x --threads {1,3} x option sets (default, sensitive_ont, --count_exons --read_group --sqanti_output "
-                 "--check_canonical, --read_group file_name with a one-file experiment before and after the replicate experiment) against stand-alone runs with -p <name>: every file of <out>/<name>/ compared byte for byte after decompression, ignoring the '# Command line:' line; "
+                 "--check_canonical, --read_group file_name with a one-file experiment before and after the replicate experiment, --read_group file:<one table> for two experiments with disjoint reads) against stand-alone runs with -p <name>: every file of <out>/<name>/ compared byte for byte after decompression, ignoring the '# Command line:' line; "
                  "flags (isoquant.log), __not_aligned and the reported known isoforms go through the model process_sample_* ; combined_* through combined_ok in Coq; "
                  "runs started through props/c10_seed.py with foreign class-level state (50 unknown isoform ids, counters advanced) must equal the clean run, runs seeded with half of the "
                  "known isoforms the clean run reports reproduce the leak (model chr_known).  %d runs, %d file comparisons" % (len(jobs), n_cmp))
